@@ -35,9 +35,10 @@ Stimuli ==
   {[op |-> "estimate", a |-> [loss |-> l, K |-> Model(R, sel, u), X |-> Data(sel),
                              subs |-> [s \in 1..Len(ix) |-> AllSubs[ix[s]]],
                              vals |-> [s \in 1..Len(ix) |-> Data(sel).v[ix[s]]],
-                             ws |-> [s \in 1..Len(ix) |-> IF uw THEN 1 ELSE (s % 3)],
-                             full_unit |-> (uw /\ ix = [c \in 1..NC |-> c])]] :
-     l \in Losses, R \in 1..2, sel \in 0..1, u \in {"ones", "mixed", "non"}, ix \in SampleIdx, uw \in BOOLEAN}
+                             ws |-> [s \in 1..Len(ix) |-> IF uw THEN 1 ELSE (s % 3) + (IF cr > 0 THEN 1 ELSE 0)],
+                             crng |-> IF Len(ix) >= 2 THEN cr ELSE 0,
+                             full_unit |-> (uw /\ cr = 0 /\ ix = [c \in 1..NC |-> c])]] :
+     l \in Losses, R \in 1..2, sel \in 0..1, u \in {"ones", "mixed", "non"}, ix \in SampleIdx, uw \in BOOLEAN, cr \in {0, 2}}
 
 GridX == <<0, 0, 0, 1, 1, 2, 2, 3, 3, 3, 0, 2>>
 GridM == <<0, 1, 0 - 2, 1, 3, 2, 0 - 1, 0, 5, 3, 4, 0 - 3>>
@@ -55,6 +56,10 @@ GradLaw == (stim.op = "evaluate" /\ QuadraticLoss(stim.a.loss) /\ UnitWeights(st
              GradCR(stim.a.loss, stim.a.K, stim.a.X, stim.a.W) = GradCD(stim.a.loss, stim.a.K, stim.a.X, stim.a.W)
 ElementLaw == \A l \in Losses : QuadraticLoss(l) =>
                 \A x \in 0..3, m \in (0 - 4)..4 : F(l, x, m + 1) - F(l, x, m - 1) = 2 * G(l, x, m)
+\* without a correction range the corrected estimators are the plain ones
+CrngLaw == (stim.op = "estimate" /\ stim.a.crng = 0) =>
+             /\ EstFc(stim.a.loss, stim.a.K, stim.a.subs, stim.a.vals, stim.a.ws, 0) = EstF(stim.a.loss, stim.a.K, stim.a.subs, stim.a.vals, stim.a.ws)
+             /\ EstGc(stim.a.loss, stim.a.K, stim.a.subs, stim.a.vals, stim.a.ws, 0) = EstG(stim.a.loss, stim.a.K, stim.a.subs, stim.a.vals, stim.a.ws)
 EstLaw == (stim.op = "estimate" /\ stim.a.full_unit) =>
             /\ EstF(stim.a.loss, stim.a.K, stim.a.subs, stim.a.vals, stim.a.ws) = Objective(stim.a.loss, stim.a.K, stim.a.X, Ones)
             /\ UnitWeights(stim.a.K) =>
